@@ -138,22 +138,6 @@ Fixpoint mand_ok (lines : list (Z * Z * bool)) (attrs : list Z) : bool :=
   | (off, len, m) :: r => Bool.eqb m (Z.testbit (nth (Z.to_nat (off + len)) attrs 0) 1) && mand_ok r attrs
   end.
 
-(* the words the specification prescribes: UAX #29 word segments starting with a rune of the Word table *)
-Fixpoint spec_words (text : list obs) (bounds : list bool) (pos start : Z) (inw : bool) : list (Z * Z) :=
-  (* bounds = word boundary flags of positions pos, pos+1, ... ; text = runes from pos *)
-  match bounds with
-  | [] => []
-  | bd :: bounds' =>
-      let emit := if bd && inw && (start <? pos) then [(start, pos - start)] else [] in
-      match text with
-      | [] => emit
-      | o :: text' =>
-          let start' := if bd then pos else start in
-          let inw' := if bd then o_word o else inw in
-          emit ++ spec_words text' bounds' (pos + 1) start' inw'
-      end
-  end.
-
 Definition oracle (c : case) : nat :=
   let text := map obs_of_code (k_text c) in
   let n := Z.of_nat (length text) in
